@@ -377,8 +377,11 @@ func (x *Exec) oblige(st *State, kind, name string, tags []string, goal string) 
 	q.PC = st.pc[:len(st.pc):len(st.pc)]
 	q.Trail = st.trail[:len(st.trail):len(st.trail)]
 	x.qs = append(x.qs, q)
-	// afterwards the fact may be used
-	st.assume(goal)
+	// afterwards the fact may be used - except for postconditions, which are checked
+	// independently of each other (a failing one must not mask the next)
+	if kind != "ensures" && kind != "frame" {
+		st.assume(goal)
+	}
 }
 
 func (x *Exec) safety(st *State, n ast.Node, what, goal string) {
@@ -601,19 +604,22 @@ func (x *Exec) evalIndex(st *State, e *ast.IndexExpr, commaOK bool) []Val {
 
 func (x *Exec) evalSliceExpr(st *State, e *ast.SliceExpr) Val {
 	s := x.eval(st, e.X)
-	if _, ok := types.Unalias(s.G).Underlying().(*types.Slice); !ok || e.Slice3 {
-		x.unsupported(e, "slice expression")
+	if _, ok := types.Unalias(s.G).Underlying().(*types.Slice); !ok {
+		x.unsupported(e, "slice expression on a non-slice")
 		return s
 	}
-	lo, hi := "0", app("sl_len", s.T)
+	lo, hi, mx := "0", app("sl_len", s.T), app("sl_cap", s.T)
 	if e.Low != nil {
 		lo = x.eval(st, e.Low).T
 	}
 	if e.High != nil {
 		hi = x.eval(st, e.High).T
 	}
-	x.safety(st, e, "slice-bounds", and(app("<=", "0", lo), app("<=", lo, hi), app("<=", hi, app("sl_cap", s.T))))
-	return Val{T: app("mk_Slice", app("sl_arr", s.T), app("+", app("sl_off", s.T), lo), app("-", hi, lo), app("-", app("sl_cap", s.T), lo)), S: "Slice", G: x.info().TypeOf(e)}
+	if e.Slice3 && e.Max != nil {
+		mx = x.eval(st, e.Max).T
+	}
+	x.safety(st, e, "slice-bounds", and(app("<=", "0", lo), app("<=", lo, hi), app("<=", hi, mx), app("<=", mx, app("sl_cap", s.T))))
+	return Val{T: app("mk_Slice", app("sl_arr", s.T), app("+", app("sl_off", s.T), lo), app("-", hi, lo), app("-", mx, lo)), S: "Slice", G: x.info().TypeOf(e)}
 }
 
 func (x *Exec) evalUnary(st *State, e *ast.UnaryExpr) Val {
